@@ -8,6 +8,9 @@ mod c01;
 mod c02;
 mod cli;
 mod ledger;
+mod imptree;
+mod camtgen;
+mod c18;
 
 pub struct Opts {
     pub seed: u64,
@@ -69,6 +72,7 @@ fn main() {
         "c01" => c01::run(&o),
         "c02" => c02::run(&o, "C02"),
         "c03" => c02::run(&o, "C03"),
+        "c18" => c18::run(&o),
         _ => {
             eprintln!("unknown property {}", prop);
             std::process::exit(2);
